@@ -50,6 +50,8 @@ def run(ctx, rep):
               'the finite-difference fallback reduces over the batch', construct='Bivariate.partial_derivative')
     rep.guarded('D6.fd', finite_difference, ctx, rep)
     rep.guarded('D7.derivative', mean_value_checks, ctx, rep)
+    rep.rule('D8.monotone', 'partial_derivative is non-decreasing in u (exact theta, narrow cells, refutation only)')
+    ivcases.monotone_refutation(ctx, rep, 'D8.monotone', 'partial_derivative', 'non-decreasing in u')
 
 
 # ------------------------------------------------------------------ D6 finite-difference fallback
